@@ -60,6 +60,7 @@ impl Drop for Scratch {
 
 pub fn cleanup_process_scratch() {
     let _ = std::fs::remove_dir_all(format!("/dev/shm/scsim-{}", std::process::id()));
+    let _ = std::fs::remove_file(format!("/dev/shm/scsim-current-{}.json", std::process::id()));
 }
 
 pub fn listing(dir: &Path) -> Vec<String> {
